@@ -10,7 +10,9 @@
 EXTENDS Integers, Sequences, FiniteSets, TLC, Json, InjectionMath
 
 CONSTANTS EmitOn,
-          Small      \* TRUE: a quarter of the signal configurations (quick model check)
+          Small,     \* TRUE: a quarter of the signal configurations (quick model check)
+          Mix        \* TRUE: only two-round behaviours over the gapped 3-frame cadence with a smeared function path, every
+                     \* pair of subsets incl. "direct" (small enough to enumerate on every quick run)
 
 VARIABLES cad,       \* [starts (seq of start rows), T (seq of rows per frame), F, asc]
           sig,       \* signal configuration (InjectionMath record)
@@ -44,10 +46,11 @@ First == Members[1]
    i.e. with its own unshifted time axis *)
 Rel(i) == IF sel = "direct" THEN 0 ELSE cad.starts[i] - cad.starts[First]
 
-Init == /\ cad \in Cads /\ sig \in Sigs
+Init == /\ cad \in (IF Mix THEN {c \in Cads : Len(c.starts) = 3} ELSE Cads)
+        /\ sig \in (IF Mix THEN {s \in AllSigs : s.smear = 2 /\ ~s.iT /\ ~s.iF /\ s.tsub = 2 /\ s.slope = 2 /\ s.tForm = "fn"} ELSE Sigs)
         /\ sel \in {"all", "slice", "tail", "direct"} /\ (sel = "tail" => Len(cad.starts) > 1)
-        /\ raiseAt \in 0..Len(cad.starts)
-        /\ rounds \in {1, 2} /\ round = 1 /\ sels = <<>>
+        /\ raiseAt \in (IF Mix THEN {0} ELSE 0..Len(cad.starts))
+        /\ rounds \in (IF Mix THEN {2} ELSE {1, 2}) /\ round = 1 /\ sels = <<>>
         /\ pc = "idle" /\ k = 0 /\ off = [i \in 1..4 |-> 0] /\ contrib = [i \in 1..4 |-> <<>>]
         /\ exc = FALSE /\ hist = <<>>
 
